@@ -39,7 +39,8 @@
 (*                                                                         *)
 (* Logical time: ages are small naturals (ticks); an entry is fresh iff    *)
 (* age < lifetime of ITS cache.  The driver maps a tick to one hour and    *)
-(* configures lifetimes LiveLife h 30 m / NonLiveLife h 30 m ... i.e.      *)
+(* configures the lifetimes half a tick short of LiveLife / NonLiveLife    *)
+(* ticks (2h30m for LiveLife = 3, 1h30m for NonLiveLife = 2), i.e.         *)
 (* strictly between two ticks, so `age < Life` is exactly the code's       *)
 (* `time.Since(cachedTime) < expiration`.                                  *)
 (***************************************************************************)
